@@ -152,6 +152,13 @@ def run_cell(cell, seed):
             with gpytorch.settings.fast_computations(log_prob=cell["fast"]), gpytorch.settings.max_cholesky_size(800):
                 got = d.log_prob(v)
             fails.check_close("log_prob", got, ref, 1e-8, 1e-9, "log_prob != Gaussian log density on broadcast arguments")
+            if N > 1:
+                # a value whose event dimension has size 1 broadcasts over the N components (the same number observed for every component)
+                v1 = util.randn(g, *vb, 1)
+                ref1 = torch.distributions.MultivariateNormal(mean.expand(*B, N), C.expand(*B, N, N)).log_prob(v1.expand(*vb, N))
+                with gpytorch.settings.fast_computations(log_prob=cell["fast"]), gpytorch.settings.max_cholesky_size(800):
+                    got1 = d.log_prob(v1)
+                fails.check_close("log_prob", got1, ref1, 1e-8, 1e-9, "log_prob of a value of event size 1 (broadcast over the components)")
             if tuple(d.batch_shape) != tuple(B) or tuple(d.event_shape) != (N,):
                 fails.add("shapes", f"batch_shape {tuple(d.batch_shape)} event_shape {tuple(d.event_shape)} want {tuple(B)}, ({N},)")
     elif what == "kl":
